@@ -43,6 +43,14 @@ def handle : Handler := fun j => do
          if exit != expectedExit then some "exit-status-nonzero-without-cache-errors"
          else if out != expected then some s!"{cmd}-listing-differs-from-library" else none)
     pure (verdict agree judge (hexList expected) [s!"cmd-{cmd}", if errKeys != [] then "with-errors" else "clean"])
+  | "monitor" =>
+    -- `cdi --spec-dirs … monitor devices`: the listing printed after the last change is the device renderer applied
+    -- to what the library computes for the directories as they are then
+    let out ← getLines obs "stdout"
+    let expected := renderDevices (← getStrList lib "devices")
+    let skipped := getBoolD obs "skipped" false
+    let judge : Option String := if skipped || out == expected then none else some "monitor-listing-differs-from-library"
+    pure (verdict judge.isNone judge (hexList expected) [if skipped then "monitor-skipped" else "cmd-monitor"])
   | "inject" =>
     let same ← getBool obs "sameaslibrary"
     let exit ← getNat obs "exit"
